@@ -65,6 +65,17 @@ CHECKS["C15"] = dict(level="model_checking", engine="E1-histories",
    note="Trusted: logical clock hooks (H2/H5/H6) stand in for time.Now(); deadlines only in the far past/future so no real timer fires. After the connection itself manipulated write_time inside a transaction the model accepts either the transaction time or the statement time (the property leaves it open).",
    ref="§5 C15")
 
+CHECKS["C11"] = dict(level="model_checking", engine="E1-sequences",
+   technique="exhaustive enumeration of all event sequences (depth 4/5) over two writers, a read-only observer, no-op probes, refresh, merging opens and read-only re-opens; recorded (version name, rows) pairs re-read at the end of every sequence",
+   text="Every sequence of length 1..4 (quick) / 1..5 (thorough) over 18 events (INSERT/UPDATE/DELETE on two keys by two writers, a two-statement transaction, statements that change nothing, refresh, a merging open by a fresh client, a read-only re-open that can hold several unmerged names) is executed; after every event the (s3db_version, rows) of every live table is recorded. At the end every recorded version is re-read through s3db_changes(from='[]', to=v) and through a read-only open restricted to exactly those names and must show the recorded rows; one name never denotes two row sets; every listed name exists as an object; no-ops and refreshes without news keep the name; a change of committed rows changes it. Thorough adds entries_per_node=2 (multi-level trees).",
+   note="Trusted: fake store; increasing logical write times; no vacuum in these histories (the property exempts vacuumed versions; C09/C10).",
+   ref="§5 C11")
+CHECKS["C12"] = dict(level="model_checking", engine="E1-sequences",
+   technique="same exhaustive sequence enumeration as C11; set-inclusion oracle on s3db_changes for every (earlier version, final version) pair in both directions, plus enumeration of every single storage fault (3 kinds) at every request of one diff per sequence",
+   text="For every sequence of the C11 space and every earlier version A against the final version B, in both directions, the result of s3db_changes(from,to) must be a subset of rows(to), contain every row of 'to' that is absent from or different in 'from', contain no deleted row, and the query must succeed (deletes between the versions included). For one pair per sequence every request of the diff is failed once with each of {transport error, AWS-style 500, cancelled context}: the query must return an error or exactly the fault-free answer.",
+   note="Trusted: fake store; fault = request has no effect and returns the error. Only single faults; pairs of old versions are covered through the prefix sequences.",
+   ref="§5 C12")
+
 NOT_YET = {}
 
 props = [json.loads(l) for l in open("properties.jsonl")]
